@@ -41,6 +41,9 @@ for mp in sorted(glob.glob('/verif/seeded/*/meta.json')):
     if len(what) > 150:
         what = what[:147] + '…'
     res = ("**caught by** " + "; ".join(caught)) if caught else "**not caught**"
+    if m.get('obsolete'):
+        res = "**obsolete** (unreachable since fix 04b210a1, see 10.5)"
+        missed = []
     if missed:
         res += " — not by " + ", ".join(missed)
     rows.append(f"| {m['name']} | {files} | {what} | {'yes' if ok else 'NO'} | {res} |")
